@@ -7,6 +7,8 @@ import Q1t.Proofs.SimComplex
 import Q1t.Proofs.SimDischargeAll
 import Q1t.Proofs.SimHypsComplex
 import Q1t.Proofs.SimStabCapstone
+import Q1t.Proofs.TableauContractQ8
+import Q1t.Proofs.Q8Field
 /-!
 # C02 — every shot is a possible run and holds the exact conditional state
 
@@ -366,6 +368,43 @@ theorem stab_measure_per_shot {half : α} {ph : List Nat} {sb : Nat → α → N
   stab_measureInto_runs hwf h
 
 end stab
+
+open Q1t.Proofs.TabG Q1t.Sim.Demo in
+/-- **stab_shot_refinement_generated** — the stabilizer-backend statement for the tables regenerated from the
+source on every run (`Gen.phaseTable`, `Gen.conjTable`), over the exact field ℚ(ζ₈), with the contract discharged by
+C03 (`TabG.tableauOK_generated`) **relative to the single hypothesis `DetShapeHolds`** (C03: in every reachable tableau
+a column without X/Y holds exactly one `Z`, in a row that is `Z_q` alone).  Everything else is proved: `LawfulAmp`,
+`LawfulSim` (`lawfulSimQ8`), the exact norm test, `LocalWeights Q8` (ℚ(ζ₈) is a field, `Q8Field.lean`).
+
+All `n`, `N`, all circuits whose gates are well-formed claiming Clifford terms on valid placements (`TabG.validT`),
+over every operation kind except `peek_all` (D5), `measure_all` naming `n` distinct classical bits; every draw list.
+After a successful run of the model's `execOps stabBackend …` from the fresh tableau: counts, register and per-shot
+tableaux account for exactly `N` shots, and every shot `i` has an outcome record `outs` (its column in the trace of
+register snapshots) whose forced replay has a candidate `(φ, w)`, `w` the shot's final word, such that the shot's
+tableau `t` **stabilizes the exact conditional state vector `φ`** (`StabG`: every signed row of `t`, as a Pauli
+operator, fixes `φ`; `t.n = n`) and `φ` has non-zero weight. -/
+theorem stab_shot_refinement_generated (n N : Nat)
+    (hD : DetShapeHolds (α := Q8) (A := Empty) n Q1t.Gen.phaseTable Q1t.Gen.conjTable Q1t.Gen.conjNoArityCheck)
+    {half : Q8} {sb : Nat → Q8 → Nat → Prop} {sc : List Q8 → Nat → Prop} (ops : List (COp Empty))
+    (hv : OpsValid (validT (A := Empty) n Q1t.Gen.conjTable) ops) (hok : ∀ op ∈ ops, StabOpOK n op)
+    {ds ds' : List Draw} {s' : StabState} {c' : List Nat}
+    (h : Runs sb sc (execOps (stabBackend half Q1t.Gen.phaseTable
+        (conjOfT (A := Empty) Q1t.Gen.conjTable Q1t.Gen.conjNoArityCheck)) (StabState.new n N) (List.replicate N 0) ops)
+      ds (.ok (s', c')) ds') :
+    (s'.counts.sum = N ∧ c'.length = N ∧ (shotTabs s').length = N) ∧
+    ∃ regs, RunsTrace (stabBackend half Q1t.Gen.phaseTable
+        (conjOfT (A := Empty) Q1t.Gen.conjTable Q1t.Gen.conjNoArityCheck)) sb sc (StabState.new n N)
+        (List.replicate N 0) ops ds regs s' c' ds' ∧
+      ∀ i, i < N → ∃ outs t w φ, ShotRecord regs i outs ∧ (shotTabs s')[i]? = some t ∧ c'[i]? = some w ∧
+        (φ, w) ∈ replay n nonzeroQ8 ops outs [(ket0 n, 0)] ∧ StabG Empty t φ ∧ t.n = n ∧
+        ∃ u : Q8, normSqSum φ * u = 1 := by
+  obtain ⟨h1, regs, h2, h3⟩ := Q1t.Sim.stab_shot_refinement (tableauOK_generated n hD) Q8.lawful lawfulSimQ8
+    nonzeroQ8_ok ops hv hok (fun _ => localWeightsQ8) h
+  refine ⟨h1, regs, h2, fun i hi => ?_⟩
+  obtain ⟨outs, t, w, φ, a, b, c, d, e, _⟩ := h3 i hi
+  obtain ⟨f1, f2, f3⟩ := reach_sound n Q1t.Gen.phaseTable Q1t.Gen.conjTable Q1t.Gen.conjNoArityCheck Q8.lawful
+    lawfulSimQ8 Q1t.Proofs.Tableau.phaseTable_correct Q1t.Proofs.ConjQ8.prims_exact_Q8 tableFacts_generated hD t φ e
+  exact ⟨outs, t, w, φ, a, b, c, d, f1, f2, f3⟩
 
 /-! ## non-vacuity -/
 
